@@ -491,6 +491,15 @@ fn native_close(vm: &mut VM, args: &[Value]) -> Result<Value, RuntimeError> {
     require_net(vm, "net.close")?;
     let handle = get_handle(vm, args[0], "net.close")?;
 
+    // look before taking: net.close stays a no-op for anything that is not a socket or listener,
+    // but it must not destroy a resource of another kind (file, byte buffer, timer)
+    if !matches!(
+        vm.get_resource(handle),
+        Some(Resource::TcpStream(_) | Resource::TcpListener(_) | Resource::UdpSocket(_))
+    ) {
+        return Ok(Value::null());
+    }
+
     match vm.take_resource(handle) {
         Some(Resource::TcpStream(res)) => {
             let _ = res.stream.shutdown(Shutdown::Both);
